@@ -14,6 +14,7 @@ import ast
 from dataclasses import dataclass, field
 from typing import Any, Dict, List, Optional, Tuple
 
+from .absint import forks_reset as absint_forks_reset
 from . import core
 from .absint import (Budget, CellV, ExcV, GenericList, Interp, ListV, NONE, Seg, State, Unknown, _Unmodelled)
 from .codec import COMPACT, INFO, SER, describe_path, same_or_refuted
@@ -142,6 +143,7 @@ def run_pass1(interp: Interp, sh: Shape, cell: Lin, t: int):
     state.frames = [env]
     interp.total_steps += interp.steps
     interp.steps = 0
+    absint_forks_reset()
     outs = interp.exec_block(sh.loop1.body, state, COMPACT)
     res = []
     for s2, sig in outs:
@@ -173,6 +175,7 @@ def run_pass2(interp: Interp, sh: Shape, cell: Lin, t: int, side_vals: Dict[str,
     interp.unroll_ranges = 1
     interp.total_steps += interp.steps
     interp.steps = 0
+    absint_forks_reset()
     try:
         outs = interp.exec_block(sh.loop2.body, state, COMPACT)
     finally:
@@ -293,6 +296,9 @@ def check_pair(rec, su: Setup, sh: Shape, r: int, t: int, cell: Lin):
     interp = su.interp
     w1, w2 = core.loc(COMPACT, sh.loop1), core.loc(COMPACT, sh.loop2)
     tag = f"{Q}: cell of resolution {r}, target {t}"
+    if cell.has_opaque():
+        rec.unk("C10.1", f"{tag}: id form of the cell", w1, f"serialize does not give the ids of this resolution as a sum of bit fields ({cell}); see C05")
+        return
     p1 = run_pass1(interp, sh, cell, t)
     falls = [x for x in p1 if x[0] is None or x[0][0] == "continue"]
     raises = [x for x in p1 if x[0] is not None and x[0][0] == "raise"]
@@ -301,14 +307,16 @@ def check_pair(rec, su: Setup, sh: Shape, r: int, t: int, cell: Lin):
         rec.unk("C10.1", f"{tag}: sizing pass leaves the loop by {other[0][0][0]}", w1, "not modelled")
         return
     if r > t:
-        if falls:
+        if falls and any((c.left.has_opaque() or c.right.has_opaque()) for x in falls for c, tt, _ in x[3].path):
+            rec.unk("C10.1", f"{tag}: the sizing pass may accept a cell finer than the target", w1, "on a path whose condition is not modelled")
+        elif falls:
             rec.bad("C10.1", f"{tag}: a cell finer than the target is accepted by the sizing pass", w1,
                     f"path [{describe_path(falls[0][3])}] falls through instead of raising")
         else:
             rec.ok("C10.1", f"{tag}: raises in the sizing pass", w1, "every path raises before the result list exists")
         return
     if raises and su.ids.get(t) is not None and any(
-            type(at).__name__ == "Opaque" for x in raises for c, tt, _ in x[3].path for at in (c.left - c.right).atoms()):
+            (c.left.has_opaque() or c.right.has_opaque()) for x in raises for c, tt, _ in x[3].path):
         rec.unk("C10.1", f"{tag}: the sizing pass may raise", w1, "on a path whose condition is not modelled")
         return
     if raises and su.ids.get(t) is not None:
